@@ -125,6 +125,30 @@ fn free_udp_port() -> u16 {
 }
 
 /// Timing knobs (C17 shortens the ICE disconnect threshold / grace so "peer vanished" is observable).
+/// Scheduling lag of the host, measured continuously: how late a `sleep(100 ms)` wakes up, as a percentage
+/// (100 = on time). A decaying maximum, so a saturation burst keeps the bounds stretched for a few seconds.
+pub static LAG_PCT: std::sync::atomic::AtomicU64 = std::sync::atomic::AtomicU64::new(100);
+pub static LAG_PCT_MAX: std::sync::atomic::AtomicU64 = std::sync::atomic::AtomicU64::new(100);
+/// start the monitor on `h` (idempotent enough: several monitors only sample more often)
+pub fn start_lag_monitor(h: &tokio::runtime::Handle) {
+    h.spawn(async {
+        loop {
+            let t = std::time::Instant::now();
+            tokio::time::sleep(Duration::from_millis(100)).await;
+            let pct = (t.elapsed().as_millis() as u64).max(100);
+            let cur = LAG_PCT.load(Ordering::Relaxed);
+            let new = pct.max((cur * 95 / 100).max(100));
+            LAG_PCT.store(new, Ordering::Relaxed);
+            LAG_PCT_MAX.fetch_max(new, Ordering::Relaxed);
+        }
+    });
+}
+/// 1.0 on an idle host, up to 5.0 when timers fire 5x late
+pub fn lag_factor() -> f64 { (LAG_PCT.load(Ordering::Relaxed) as f64 / 100.0).clamp(1.0, 5.0) }
+/// a time bound stretched by the measured scheduling lag (runnable-but-not-scheduled tasks are not a defect of
+/// the subject); the nominal bound is what the messages and the evidence quote
+pub fn scaled(d: Duration) -> Duration { d.mul_f64(lag_factor()) }
+
 #[derive(Clone, Debug)]
 pub struct Knobs {
     pub ice_disconnect_threshold: Option<Duration>,
@@ -227,7 +251,7 @@ impl Pair {
     /// offerer: create_offer (+ gathering) and set_local_description.
     pub async fn make_offer(&mut self) -> Result<(), String> {
         let _ = self.off.pc.create_offer().await.map_err(|e| format!("create_offer: {e}"))?;
-        tokio::time::timeout(Duration::from_secs(5), self.off.pc.wait_for_gathering_complete()).await.map_err(|_| "offer gathering timeout".to_string())?;
+        tokio::time::timeout(scaled(Duration::from_secs(5)), self.off.pc.wait_for_gathering_complete()).await.map_err(|_| "offer gathering timeout".to_string())?;
         let offer = self.off.pc.create_offer().await.map_err(|e| format!("create_offer2: {e}"))?;
         self.off.pc.set_local_description(offer.clone()).map_err(|e| format!("set_local(offer): {e}"))?;
         self.offer = Some(offer);
@@ -239,7 +263,7 @@ impl Pair {
     }
     pub async fn make_answer(&mut self) -> Result<(), String> {
         let _ = self.ans.pc.create_answer().await.map_err(|e| format!("create_answer: {e}"))?;
-        tokio::time::timeout(Duration::from_secs(5), self.ans.pc.wait_for_gathering_complete()).await.map_err(|_| "answer gathering timeout".to_string())?;
+        tokio::time::timeout(scaled(Duration::from_secs(5)), self.ans.pc.wait_for_gathering_complete()).await.map_err(|_| "answer gathering timeout".to_string())?;
         let answer = self.ans.pc.create_answer().await.map_err(|e| format!("create_answer2: {e}"))?;
         self.ans.pc.set_local_description(answer.clone()).map_err(|e| format!("set_local(answer): {e}"))?;
         self.answer = Some(answer);
@@ -258,7 +282,7 @@ impl Pair {
     pub async fn wait_connected(&self, t: Duration) -> Result<(), String> {
         let a = self.off.pc.wait_for_connected();
         let b = self.ans.pc.wait_for_connected();
-        match tokio::time::timeout(t, async { tokio::try_join!(a, b) }).await {
+        match tokio::time::timeout(scaled(t), async { tokio::try_join!(a, b) }).await {
             Err(_) => Err(format!("not connected within {:?}: offerer={:?} answerer={:?}", t,
                 *self.off.pc.subscribe_peer_state().borrow(), *self.ans.pc.subscribe_peer_state().borrow())),
             Ok(Err(e)) => Err(format!("wait_for_connected: {e}; reasons offerer={:?} answerer={:?}", self.off.pc.disconnect_reason(), self.ans.pc.disconnect_reason())),
@@ -269,7 +293,7 @@ impl Pair {
     pub async fn accept_channel(&mut self, t: Duration) -> Result<(), String> {
         if self.ans.dc.is_some() || !self.cfg.mix.has_data() { return Ok(()); }
         let pc = self.ans.pc.clone();
-        let r = tokio::time::timeout(t, async move {
+        let r = tokio::time::timeout(scaled(t), async move {
             loop {
                 match pc.recv().await {
                     Some(PeerConnectionEvent::DataChannel(dc)) => return Some(dc),
@@ -286,10 +310,24 @@ impl Pair {
     }
 }
 
+/// wait until `pc` announces a channel opened by its peer; it must carry `label`
+pub async fn announced_channel(pc: &PeerConnection, label: &str, t: Duration) -> Result<Arc<DataChannel>, String> {
+    let r = tokio::time::timeout(scaled(t), async {
+        loop {
+            match pc.recv().await {
+                Some(PeerConnectionEvent::DataChannel(dc)) => return if dc.label == label { Ok(dc) } else { Err(format!("announced channel has label {:?} (stream {}), expected {:?}", dc.label, dc.id, label)) },
+                Some(_) => continue,
+                None => return Err("event stream ended before the peer's channel was announced".to_string()),
+            }
+        }
+    }).await;
+    match r { Ok(x) => x, Err(_) => Err(format!("peer's channel {:?} not announced within {:?}", label, t)) }
+}
+
 /// wait until `dc` reports Open (event) — returns Err on Close / timeout
 pub async fn wait_open(dc: &Arc<DataChannel>, t: Duration) -> Result<(), String> {
     if dc.state.load(Ordering::SeqCst) == rustrtc::DataChannelState::Open as usize { return Ok(()); }
-    let r = tokio::time::timeout(t, async {
+    let r = tokio::time::timeout(scaled(t), async {
         loop {
             match dc.recv().await {
                 Some(DataChannelEvent::Open) => return Ok(()),
@@ -305,7 +343,7 @@ pub async fn wait_open(dc: &Arc<DataChannel>, t: Duration) -> Result<(), String>
 /// Send `payload` on `from`'s channel id and wait for exactly that message on `to_dc`.
 pub async fn dc_roundtrip(from: &PeerConnection, id: u16, to_dc: &Arc<DataChannel>, payload: &[u8], t: Duration) -> Result<(), String> {
     from.send_data(id, payload).await.map_err(|e| format!("send_data: {e}"))?;
-    let r = tokio::time::timeout(t, async {
+    let r = tokio::time::timeout(scaled(t), async {
         loop {
             match to_dc.recv().await {
                 Some(DataChannelEvent::Message(m)) => return Ok::<Bytes, String>(m),
@@ -350,7 +388,7 @@ pub async fn rtp_roundtrip(src: &Media, to: &PeerConnection, payload: &[u8], t: 
         }
     });
     let want = payload.to_vec();
-    let r = tokio::time::timeout(t, async {
+    let r = tokio::time::timeout(scaled(t), async {
         loop {
             match recv_track.recv().await {
                 Ok(s) => { let d = sample_payload(&s); if d.as_ref() == want.as_slice() { return Ok(()); } else { return Err(format!("payload altered ({} bytes)", d.len())); } }
